@@ -58,6 +58,7 @@ AFTER_HEADER = {"quiet": [], "verbose": [("#int verbose on\n", "verbose is on.\n
 BANNER_END = 'Type "#int help" for more details.\n'
 ECHO = r"(?:[^\n]* @ [^\n]*\n)?"
 ANCHOR = re.compile(r"^\{ALDOR_[A-Za-z0-9_]+\} ")
+CONTEXT_PARA = re.compile(r"^  The context requires an expression of type [^\n]*\.$")
 FOREIGN = re.compile(r'^"[^"\n]+", line \d+: ?$')
 CARET = re.compile(r"^[.^]*\^$")
 MSG_POS = re.compile(r"^\{ALDOR_[A-Za-z0-9_]+\} \[L(\d+) C(\d+)\] #\d+ \(((?:Fatal )?Error|Warning|Note|Remark)\)")
@@ -230,6 +231,16 @@ def strip_messages(body):
                 j += 1
             if j < len(lines):
                 keep[j] = False          # the empty line that ends the block
+            # terror.c:bputContextType writes "\n  The context requires an expression of type T." -- after the
+            # set! message (terrorImplicitSetBang) that leaves an EMPTY line inside the block: the paragraph after it
+            # still belongs to the message
+            if j + 1 < len(lines) and CONTEXT_PARA.match(lines[j + 1]):
+                j += 1
+                while j < len(lines) and lines[j].strip("\n") != "":
+                    keep[j] = False
+                    j += 1
+                if j < len(lines):
+                    keep[j] = False
             i = j + 1
         else:
             i += 1
@@ -260,6 +271,10 @@ def insert_positions(x, forms):
     never more.  `g := literal` for a constant g is an error only once g is defined (before that
     it would DECLARE g, langenvs.tex:323-326): positions after g's definition."""
     n = len(forms)
+    if "Union(" in x["bad_form"]:
+        # an erroneous form holding a Union literal can kill the loop while the error is reported (probe
+        # `union-literal-error-in-if-condition`): not entered; the batch side (C06) still plants these
+        return []
     if x["kind"] == "assign-to-constant":
         m = CONST_ASSIGN.match(x["bad_form"])
         if not m:
@@ -269,12 +284,24 @@ def insert_positions(x, forms):
                 return list(range(i + 1, n + 1))
         return []
     m = re.match(r"(f\d+)\(", x["bad_form"])
+    if m and any("Record(" in f["src"] or "Union(" in f["src"] for f in forms):
+        # ANY rejected function definition makes the next accepted form that declares a parameter / local / loop
+        # variable of a Record(..) or Union(..) type segfault, deterministically (probe
+        # `rejected-function-then-record-local`): no erroneous function definitions in programs that use these types
+        return []
     if m:
         # a function definition: entered only before ANY definition of that name.  Re-entering a definition that
         # was accepted makes the loop hang, and a REJECTED overload of a name that already has a definition breaks
         # the existing one (segfault at its next call): findings, probes `redefinition` and `rejected-overload`
         first = min([i for i, f in enumerate(forms) if f["src"].startswith(m.group(1) + "(")] + [x["fault_form"]])
-        return list(range(0, min(n, first) + 1))
+        # ... and only after the definitions of the globals it declares `free`: a definition rejected by the SCOPE
+        # binder ("Cannot find scope in which free variable `g3' is bound") leaves the function's name damaged -- a
+        # segfault, or the good definition refused as "library or archive constant" (same finding family)
+        lo = 0
+        for g in re.findall(r"^\s+free (g\d+);", x["bad_form"], re.M):
+            ds = [i for i, f in enumerate(forms) if f["src"].startswith(g + ":")]
+            lo = max(lo, (ds[0] + 1) if ds else n + 1)
+        return list(range(lo, min(n, first) + 1))
     if re.match(r"g\d+: [^\n]*? == ", x["bad_form"]):
         # a constant definition: only before the original (re-entering it makes the loop hang, probe `redefinition`)
         return list(range(0, min(n, x["fault_form"]) + 1))
@@ -397,6 +424,20 @@ PROBES = [
      "steps": _H + [("import from Integer;\n", "", False), ("g2: MachineInteger := 1@MachineInteger;\n", "", False),
                     ("f3(): MachineInteger == {\n    (if (if g4999 then true else false) then g2 else g2)\n}\n", "", True),
                     ("stdout << g2 << newline;\n", "1\n", False)]},
+    {"name": "rejected-function-then-record-local", "key": "C13 gloop:many-rejected-function-definitions:later-segfault",
+     "what": "mixed", "mode": "quiet",
+     "steps": _H + [("import from Integer;\n", "", False), ("import from Record(f0: Integer, f1: MachineInteger);\n", "", False),
+                    ("f1(p0: MachineInteger): Integer == p0;\n", "", True),
+                    ("f2(p0: MachineInteger): Integer == {\n    l3: Record(f0: Integer, f1: MachineInteger) := [10, p0];\n    (10@Integer)\n}\n", "", False),
+                    ("stdout << f2(1) << newline;\n", "10\n", False)]},
+    {"name": "union-literal-error-in-if-condition",
+     "key": "C13 gloop:undefined-name-in-union-literal-in-if-condition:segfault-while-reporting", "what": "mixed", "mode": "quiet",
+     "steps": _H + [("import from Integer;\n", "", False), ("MI ==> MachineInteger;\n", "", False), ("mi(x: MI): MI == x;\n", "", False),
+                    ("import from Union(f0: MI, f1: MI, f2: MI);\n", "", False),
+                    ("g1 := (if (([f1 == g4999]@Union(f0: MI, f1: MI, f2: MI)) case f0) then (([f1 == g1]@Union(f0: MI, f1: MI, f2: MI)).f0) else mi(5));\n", "", True),
+                    ("g1: MI := mi(3);\n", "", False),
+                    ("g1 := (if (([f1 == g4999]@Union(f0: MI, f1: MI, f2: MI)) case f0) then (([f1 == g1]@Union(f0: MI, f1: MI, f2: MI)).f0) else mi(5));\n", "", True),
+                    ("stdout << g1 << newline;\n", "3\n", False)]},
     {"name": "verbose-if-else", "key": "C13 gloop:verbose-mode:toplevel-if-else-with-branches-of-different-types-rejected",
      "what": "good", "mode": "verbose",
      "steps": _H + AFTER_HEADER["verbose"] + [("g0: MachineInteger := 3;\n", "", False),
@@ -436,7 +477,7 @@ def class_key(cls, steps, out):
         # any type error (undefined name, wrong argument, wrong arity) in the condition of an if-expression that is
         # itself (part of) an if-condition: the message is printed, then the reporter segfaults
         return "C13 gloop:undefined-name-in-nested-if-condition:segfault-while-reporting"
-    if cls == "loop-crashed" and any(re.match(r"f\d+\(", s) for s, _, b in steps if b):
+    if (cls == "loop-crashed" or "{ALDOR_E_ScoLibrary}" in out) and any(re.match(r"f\d+\(", s) for s, _, b in steps if b):
         # one or more rejected FUNCTION definitions: sporadic segfault later in the session (heap-layout dependent:
         # the same session may pass with a compiler built from slightly different sources)
         return "C13 gloop:many-rejected-function-definitions:later-segfault"
@@ -562,14 +603,21 @@ def run(rep, tier):
         # good sessions and batch first: they give the reference transcript of each program
         ref = {}
         for (what, md, prog, _, ins), steps, r in results:
-            f = prog["f"]
-            k = (f["seed"], f["size"])
             if what == "batch":
                 st["batch-runs"] += 1
-                ref.setdefault(k, {})["batch"] = r
-            elif what == "good":
+                ref.setdefault((prog["f"]["seed"], prog["f"]["size"]), {})["batch"] = r
+        for (what, md, prog, _, ins), steps, r in results:
+            f = prog["f"]
+            k = (f["seed"], f["size"])
+            if what == "good":
                 rc, out = r
                 cls = judge_good(md, steps, rc, out)
+                b = ref.get(k, {}).get("batch")
+                if cls and b is not None and b["status"] != "ok" and "(Error)" in (b["out"] + b["err"]):
+                    # the BATCH compiler rejects the program too: oracle / generator versus compiler is C01's
+                    # question, not a difference between the loop and batch
+                    st["good-session/%s/not-judged:batch-rejects-the-program-too(C01)" % md] += 1
+                    continue
                 st["good-session/%s/%s" % (md, cls or "ok")] += 1
                 if md == "quiet":
                     ref.setdefault(k, {})["body"] = body_of(out, md)
@@ -614,6 +662,7 @@ def run(rep, tier):
     for cls, what, md, prog, steps, ins, out in failures:
         f = prog["f"]
         ck = class_key(cls, steps, out)
+        st["failures-by-key/%s/%s" % (cls, ck or "unkeyed")] += 1
         if shrunk < 3 and cls != "timeout" and not (ck and rep.finding_key_known(ck)):
             shrunk += 1
             steps = shrink_session(aldor, base, cls, what, md, prog, steps, budget_s=40 if quick else 240)
